@@ -197,6 +197,7 @@ struct ProdT : IProd {
     else if (q == "affine_dimension") std::cout << "ans n " << p.affine_dimension() << "\n";
     else if (q == "relation_with_con") print_rel(p.relation_with(read_con(tk, d)));
     else if (q == "relation_with_cg") print_rel(p.relation_with(read_cg(tk, d)));
+    else if (q == "relation_with_gen") { Poly_Gen_Relation r = p.relation_with(read_gen(tk, d)); std::cout << "ans b " << (r.implies(Poly_Gen_Relation::subsumes()) ? 1 : 0) << "\n"; }
     else if (q == "maximize" || q == "minimize") {
       Linear_Expression e = read_expr(tk, d, b); Coefficient n, dn; bool m = false;
       bool r = (q == "maximize") ? p.maximize(e, n, dn, m) : p.minimize(e, n, dn, m);
